@@ -216,6 +216,34 @@ def r142(ctx) -> None:
             if t.finalbody and any(call_name(c) == 'delete'
                                    for s in t.finalbody for c in calls_in(s)):
                 ok = True
+        # ... and it undoes what THIS loop has stored so far: the list handed
+        # to delete() grows inside the loop, once per stored message
+        stale = None
+        for t in tries:
+            for h in t.handlers:
+                for s2 in h.body:
+                    for c in calls_in(s2):
+                        if call_name(c) == 'delete' and \
+                                txt(c.func.value) == mbx and c.args and \
+                                isinstance(c.args[0], ast.Name):
+                            lst = c.args[0].id
+                            grows = any(
+                                call_name(a) in ('append', 'extend', 'add')
+                                and txt(a.func.value) == lst
+                                for st in loop.body for a in calls_in(st))
+                            if not grows:
+                                stale = (c, lst)
+        if ok and stale:
+            c, lst = stale
+            R.fail(f, c, 'append_messages: MULTIAPPEND prefix is undone '
+                   'when a later message fails',
+                   f'the rollback deletes `{lst}`, but the loop that stores '
+                   f'the messages never adds to `{lst}` (it is filled only '
+                   f'after the loop): when message n fails the list is '
+                   f'still empty, nothing is undone and the first n-1 '
+                   f'messages of a MULTIAPPEND that did not end in OK stay '
+                   f'in the mailbox')
+            continue
         if ok and conditional:
             c, test = conditional[0]
             R.fail(f, c, 'append_messages: MULTIAPPEND prefix is undone '
